@@ -259,6 +259,8 @@ type fakeAPI struct {
 
 	// watch behaviour
 	watchDead  bool
+	watchHang  bool // Watch() blocks until its context is cancelled
+	hung       int  // Watch calls currently hanging
 	connErrs   int
 	holdWatch  bool
 	wcallch    chan int
@@ -476,6 +478,17 @@ func (a *fakeAPI) Watch(ctx context.Context, o metav1.ListOptions) (watch.Interf
 		wc.failed = true
 		return nil, errWatchInjected
 	}
+	if a.watchHang {
+		// the connection attempt hangs (a black-holed API server): the call returns when, and only
+		// when, its context is cancelled - the one thing C12's premise asks of a client
+		wc.failed = true
+		a.hung++
+		a.mu.Unlock()
+		<-ctx.Done()
+		a.mu.Lock()
+		a.hung--
+		return nil, ctx.Err()
+	}
 	if a.connErrs > 0 {
 		a.connErrs--
 		wc.failed = true
@@ -646,6 +659,29 @@ func (a *fakeAPI) closeSessions() int {
 	return n
 }
 
+// injectFrames puts a non-object frame on every live watch stream: a Status
+// error frame (e.g. 410 Gone), a Bookmark, or a frame of an unknown type.
+func (a *fakeAPI) injectFrames(kind int) int {
+	a.mu.Lock()
+	defer a.mu.Unlock()
+	n := 0
+	for _, s := range a.sessions {
+		if s.closed || s.stopped() {
+			continue
+		}
+		switch kind % 3 {
+		case 0:
+			s.enqueue(watch.Event{Type: watch.Error, Object: &metav1.Status{Status: "Failure", Reason: metav1.StatusReasonGone, Message: "injected status frame", Code: 410}})
+		case 1:
+			s.enqueue(watch.Event{Type: watch.Bookmark, Object: &corev1.Pod{ObjectMeta: metav1.ObjectMeta{ResourceVersion: strconv.Itoa(a.rv)}}})
+		case 2:
+			s.enqueue(watch.Event{Type: watch.EventType("WEIRD"), Object: &corev1.Pod{ObjectMeta: metav1.ObjectMeta{Namespace: "a", Name: "weird", ResourceVersion: strconv.Itoa(a.rv)}}})
+		}
+		n++
+	}
+	return n
+}
+
 func (a *fakeAPI) liveSessions() int {
 	a.mu.Lock()
 	defer a.mu.Unlock()
@@ -692,4 +728,10 @@ func (a *fakeAPI) watchCount() int {
 	a.mu.Lock()
 	defer a.mu.Unlock()
 	return len(a.watchCalls)
+}
+
+func (a *fakeAPI) hungCount() int {
+	a.mu.Lock()
+	defer a.mu.Unlock()
+	return a.hung
 }
